@@ -380,6 +380,10 @@ class CallMixin:
             return k(st, SV(self.new_list(st, []), "list"))
         if cls is dict and not pos:
             return k(st, SV(self.new_dict(st), "dict"))
+        if cls is dict and len(pos) == 1 and not kws and self.narrow(st, pos[0]).ty == "dict":
+            ref = self.new_dict(st)  # dict(d): a fresh dict with d's keys and values
+            self.dict_merge_into(st, Val.r(ref), Val.r(pos[0].t))
+            return k(st, SV(ref, "dict"))
         if cls is set and not pos:
             return k(st, SV(self.new_dict(st, kind=smt.CLS_SET), "set"))
         if cls in (list, tuple) and len(pos) == 1:
@@ -793,6 +797,17 @@ class CallMixin:
                     return k(s1, SV_NONE)
 
                 return self.branch(st, has, hit, lambda s2: self.raise_builtin(s2, "KeyError", node))
+            if m == "update" and ty == "dict" and len(pos) == 1 and not kws:
+                src = self.narrow(st, pos[0])
+                if src.ty != "dict":
+                    raise Unsupported("dict.update with a non-dict argument")
+                self.check_write(st, Val.r(base.t), "$dhas", node, "write to dict/set contents is allowed by modifies")
+                self.dict_merge_into(st, Val.r(base.t), Val.r(src.t))
+                return k(st, SV_NONE)
+            if m == "copy" and ty == "dict":
+                ref = self.new_dict(st)
+                self.dict_merge_into(st, Val.r(ref), Val.r(base.t))
+                return k(st, SV(ref, "dict"))
             if m == "clear":
                 r = Val.r(base.t)
                 st.setH("$dhas", z3.Store(st.H("$dhas"), r, z3.K(Val, z3.BoolVal(False))))
